@@ -2,7 +2,7 @@
    PARTIAL: the 1D -> 0D thermally-thin limit is asymptotic (oracle); the 2D -> 1D limit is proved for a
    simultaneous sweep and REFUTED for the in-place sweep of the implementation (known finding F9); see DESIGN.md. *)
 From Coq Require Import Reals ZArith List Bool.
-From Snow Require Import Num NumR Sn1D SnProofs Flake FlakeProofs Sn2D Sn2DProofs.
+From Snow Require Import Num NumR Sn1D SnProofs Flake FlakeProofs Sn2D Sn2DProofs Sn2Dto1D.
 Import ListNotations.
 Local Open Scope R_scope.
 
@@ -39,6 +39,18 @@ Theorem C15_2D_simultaneous_sweep_keeps_radial_uniformity :
   runiform Nz Nr (cool_step2_gen Rops P Nz Nr rr false g Tsh qe).
 Proof. intros. eapply jacobi_keeps_uniform; eassumption. Qed.
 Print Assumptions C15_2D_simultaneous_sweep_keeps_radial_uniformity.
+
+(* ... and then every column IS the 1D cooling step of that column (same dz, dt, K, lambda, alpha): the 2D model without
+   radial heat exchange reproduces the 1D model exactly -- for a simultaneous sweep *)
+Theorem C15_2D_simultaneous_sweep_column_is_the_1D_step :
+  forall (P2 : @p2d R) (P1 : @p1d R), q_dz P1 = s_dz P2 -> q_dt P1 = s_dt P2 -> q_K P1 = s_K P2 -> q_lam0 P1 = s_lam0 P2 -> q_alpha0 P1 = s_alpha0 P2 ->
+  forall Nz Nr rr, (3 <= Nz)%nat -> (3 <= Nr)%nat ->
+  forall (g : @grid R) Tsh q (qe : list R), shape g Nz Nr -> runiform Nz Nr g -> s_Kw P2 = 0 ->
+  (length qe = Nr /\ forall j, (j < Nr)%nat -> nth j qe 0 = q) -> s_dz P2 <> 0 -> s_dr P2 <> 0 -> s_lam0 P2 <> 0 ->
+  forall i j, (i < Nz)%nat -> (j < Nr)%nat ->
+  gget Rops (cool_step2_gen Rops P2 Nz Nr rr false g Tsh qe) i j = nth i (cool_step Rops P1 (column g) Tsh q) 0.
+Proof. intros. eapply jacobi_column_is_1D_step; eassumption. Qed.
+Print Assumptions C15_2D_simultaneous_sweep_column_is_the_1D_step.
 
 (* ... and the in-place sweep the implementation performs (model/Sn2D.v, tied to _run_2D by one-step
    correspondence) does not: the full statement is false of the faithful model.  Witness: a 3x3 field. *)
